@@ -26,7 +26,8 @@ type Rec struct {
 	Val     string    `json:"val,omitempty"`
 	Ok      bool      `json:"ok,omitempty"`
 	N       int       `json:"n,omitempty"`
-	Dump    string    `json:"dump,omitempty"`
+	Dump    string    `json:"dump,omitempty"` // a detached copy of what Dump returned, taken at once
+	dumpRaw string    // the string Dump handed out, kept WITHOUT copying: it must still read the same when the run is over
 	Removed []removed `json:"removed,omitempty"`
 	Panic   string    `json:"panic,omitempty"`
 	Done    bool      `json:"done"`
@@ -153,7 +154,8 @@ func exec(p *Plan, l *valid.LRUCache, rec *Rec) {
 	case OpLen:
 		rec.N = l.Len()
 	case OpDump:
-		rec.Dump = l.Dump()
+		rec.dumpRaw = l.Dump()
+		rec.Dump = string([]byte(rec.dumpRaw))
 	}
 }
 
@@ -404,6 +406,15 @@ func Run(p *Plan, ch simsync.Chooser) (out *Outcome) {
 		out.PlanSchedHash = detsim.HashAdd(out.PlanSchedHash, detsim.Hash64(h.Op.String()))
 	}
 
+	// a string the cache handed out belongs to the caller: it must read now as it read when Dump returned
+	var dumpChanged *Rec
+	for c := range recs {
+		for i := range recs[c] {
+			if r := &recs[c][i]; r.Op.K == OpDump && r.Done && r.dumpRaw != r.Dump && dumpChanged == nil {
+				dumpChanged = r
+			}
+		}
+	}
 	// verdicts common to all shapes
 	switch {
 	case len(res.Panics) > 0:
@@ -415,6 +426,8 @@ func Run(p *Plan, ch simsync.Chooser) (out *Outcome) {
 		return out
 	case seqV != nil:
 		out.V = seqV
+	case dumpChanged != nil && p.Prop == "C10":
+		out.V = &detsim.Violation{Class: "handed-out-string-changed", Sub: "Dump", Detail: fmt.Sprintf("client %d: Dump() returned %q; the same string, read again after the run, says %q", dumpChanged.Client, clip(dumpChanged.Dump), clip(dumpChanged.dumpRaw))}
 	}
 	if out.V != nil {
 		return out
@@ -942,4 +955,11 @@ func judgeLarge(p *Plan, cache *valid.LRUCache, out *Outcome) {
 		bad("len-mismatch", "at quiescence Len()=%d but %d keys hit", n, live)
 	}
 	out.NonTrivial = out.Res.LockWaits > 0 && (nRemoved > 0 || !p.Callback)
+}
+
+func clip(s string) string {
+	if len(s) > 300 {
+		return s[:300] + "..."
+	}
+	return s
 }
